@@ -1399,35 +1399,37 @@ class UTPM(Ring, RawAlgorithmsMixIn):
     def __neg__(self):
         return self.__class__.neg(self)
 
+    def _zeroth_coefficients_for_comparison(self, other):
+        """ zeroth coefficients of self and other, broadcast like the operands of an arithmetic
+        operation (the direction axis is not a data axis) """
+        if isinstance(other, self.__class__):
+            x_data, y_data = UTPM._broadcast_arrays(self.data[:1], other.data[:1])
+            return x_data[0], y_data[0]
+        other = numpy.asarray(other)
+        x0 = self.data[0]
+        if other.ndim > x0.ndim - 1:
+            x0 = x0.reshape(x0.shape[:1] + (1,)*(other.ndim - (x0.ndim - 1)) + x0.shape[1:])
+        return x0, other
+
     def __lt__(self, other):
-        if isinstance(other,self.__class__):
-            return numpy.all(self.data[0,...] < other.data[0,...])
-        else:
-            return numpy.all(self.data[0,...] < other)
+        x0, y0 = self._zeroth_coefficients_for_comparison(other)
+        return numpy.all(x0 < y0)
 
     def __le__(self, other):
-        if isinstance(other,self.__class__):
-            return numpy.all(self.data[0,...] <= other.data[0,...])
-        else:
-            return numpy.all(self.data[0,...] <= other)
+        x0, y0 = self._zeroth_coefficients_for_comparison(other)
+        return numpy.all(x0 <= y0)
 
     def __gt__(self, other):
-        if isinstance(other,self.__class__):
-            return numpy.all(self.data[0,...] > other.data[0,...])
-        else:
-            return numpy.all(self.data[0,...] > other)
+        x0, y0 = self._zeroth_coefficients_for_comparison(other)
+        return numpy.all(x0 > y0)
 
     def __ge__(self, other):
-        if isinstance(other,self.__class__):
-            return numpy.all(self.data[0,...] >= other.data[0,...])
-        else:
-            return numpy.all(self.data[0,...] >= other)
+        x0, y0 = self._zeroth_coefficients_for_comparison(other)
+        return numpy.all(x0 >= y0)
 
     def __eq__(self, other):
-        if isinstance(other,self.__class__):
-            return numpy.all(self.data[0,...] == other.data[0,...])
-        else:
-            return numpy.all(self.data[0,...] == other)
+        x0, y0 = self._zeroth_coefficients_for_comparison(other)
+        return numpy.all(x0 == y0)
 
     @classmethod
     def neg(cls, x, out = None):
